@@ -1467,31 +1467,29 @@ func c20Fork(c *core.Ctx) {
 	c.ExpectAtLeast("sentinel returns in seqOf", nConst, 1)
 	c.ExpectAtLeast("Seq() returns in seqOf", nSeq, 1)
 	// T15: sentinel >= largest admissible Seq. basiccheck rejects Seq >= K.
-	bc := c.Fn("eventcheck/basiccheck.Checker.checkLimits")
-	ev := bc.Param(0)
+	// The function holding the test is found by what it does (c20_limit.go): the entry point
+	// basiccheck.Validate or a same-package function the event is handed to (method or plain function),
+	// that returns nil only over Seq < K.
+	entry, limitSites := c20SeqLimitSites(c)
 	var kVal *big.Int
-	capture := func(ft core.Fact) bool {
-		lc, ok := core.NormLinCmp(bc.Info(), ft, func(e ast.Expr) string {
-			if call := isCallTo(bc, e, "inter/dag.Event.Seq"); call != nil {
-				if sel, ok := ast.Unparen(call.Fun).(*ast.SelectorExpr); ok && varOf(bc, sel.X) == ev {
-					return "seq"
-				}
-			}
-			return ""
-		})
-		if !ok || lc.Op != "<=" || len(lc.Form.Coef) != 1 || lc.Form.Coef["seq"] == nil || lc.Form.Coef["seq"].Cmp(big.NewInt(1)) != 0 {
-			return false
-		}
-		// seq + C <= 0  =>  seq <= -C
-		kVal = new(big.Int).Neg(lc.Form.C)
-		return true
-	}
 	nOK := 0
-	for _, rp := range returnsWith(bc, 0, func(e ast.Expr) bool { return core.IsNil(bc.Info(), e) }) {
-		g, _ := c19GuardedLocally(bc, rp, capture)
-		c.Check(g, "basiccheck accepts only Seq <= bound", "T8 DecisionTable", posOf(rp), "checkLimits returns nil only over Seq < K", "checkLimits can accept an event without an upper bound on Seq: the fork sentinel is no longer above every admissible sequence")
-		if g {
-			nOK++
+	if len(limitSites) == 0 {
+		c.Check(false, "basiccheck accepts only Seq <= bound", "T8 DecisionTable", entry.Pos(), "", "neither basiccheck.Validate nor a function of basiccheck it hands the event to returns nil only over Seq < K: events are accepted without an upper bound on Seq, the fork sentinel is no longer above every admissible sequence")
+	}
+	for _, s := range limitSites {
+		bc := s.F
+		capture := c20SeqBoundFact(bc, s.Ev, func(k *big.Int) {
+			// several tests: the weakest one is what the sentinel is compared with
+			if kVal == nil || k.Cmp(kVal) > 0 {
+				kVal = k
+			}
+		})
+		for _, rp := range c20AcceptingReturns(bc) {
+			g, _ := c19GuardedLocally(bc, rp, capture)
+			c.Check(g, "basiccheck accepts only Seq <= bound", "T8 DecisionTable", posOf(rp), bc.Name+" returns nil only over Seq < K", bc.Name+" can accept an event without an upper bound on Seq: the fork sentinel is no longer above every admissible sequence")
+			if g {
+				nOK++
+			}
 		}
 	}
 	c.ExpectAtLeast("accepting returns of checkLimits", nOK, 1)
